@@ -64,6 +64,29 @@ def handleRange (st : St) (op : String) (j : Json) : Option (D (St × Json)) :=
       | .error .raises => eRaises
       | .error .outOfFuel => Json.mkObj [("err", "outOfFuel")]
       | .error .negInsert => Json.mkObj [("err", "negInsert")])
+  -- ---------------- the guards of the totality theorems (Props/C11.lean): the finding class `C11-fitter-partial-node`
+  -- (`partialNodeOn`, compared exactly with harness/findings.py `partial_node_class`), the termination guard, slice
+  -- well-formedness and determinism of the schema's automata; with them the model's own answer for the request
+  | "fitGuards" => some do
+    let S ← getSchema st j
+    let d ← node (← field j "doc")
+    let f ← nat (← field j "from")
+    let t ← nat (← field j "to")
+    let sl ← slice (← field j "slice")
+    let outcome : String := match replaceStep S d f t sl with
+      | .ok _ => "ok"
+      | .error .raises => "raises"
+      | .error .outOfFuel => "outOfFuel"
+      | .error .negInsert => "negInsert"
+    -- the hypotheses of `delete_total` / `insertInline_total` (Props/C11.lean), evaluated for requests with a closed
+    -- slice of leaf nodes only (the empty slice is one)
+    let hyp : Json := if sl.inlineLeaves S then
+        Json.mkObj [("fillers", Json.bool S.fillersOKB), ("valid", Json.bool (S.checkNode d)),
+          ("attrs", Json.bool (S.nodeAttrsOK d)), ("topTextblock", Json.bool (S.isTextblockO (S.tyOf d))),
+          ("wrapOK", Json.bool S.wrapOKB), ("empty", Json.bool sl.content.isEmpty)]
+      else Json.null
+    return (st, ok (Json.mkObj [("partial", Json.bool (!sl.noPartialNode S)), ("term", Json.bool sl.termGuard),
+      ("wf", Json.bool sl.wf), ("det", Json.bool (PM.FromDom.detB S)), ("model", Json.str outcome), ("hyp", hyp)]))
   | "fillBeforeO" => some do
     let S ← getSchema st j
     let dfa := S.dfa (← nat (← field j "ty"))
